@@ -837,7 +837,7 @@ SER_NAMES = [["", "a"], ["", "b"], ["u1", "a"], ["u2", "c"]]
 
 
 def rich_text(rnd, brackets=False):
-    alpha = [93, 93, 62, 62, 93, 120, 60, 38, 13, 233, 0x1F600] if brackets else [120, 60, 38, 62, 93, 34, 39, 9, 10, 13, 233, 0x1F600, 32, 121]
+    alpha = [93, 93, 62, 62, 93, 120, 60, 38, 13, 233, 0x1F600] if brackets else [120, 60, 38, 62, 93, 34, 39, 9, 10, 13, 233, 0x1F600, 32, 121, 0x85, 0x2028, 0xA0]      # (NEL, LS, NBSP: ordinary characters in XML 1.0)
     return [rnd.choice(alpha) for _ in range(rnd.randrange(1, 7))]
 
 
@@ -982,6 +982,13 @@ def ser_check(prop, tier, seed):
                 nd["t"] = rich_text(rnd)
             if nd["k"] == "nsn" and nd["u"] and rnd.random() < 0.1:
                 nd["u"] = rnd.choice(["http://x?a=1&b=2", "u v", "u\"q"])
+            # names, comments and PI data outside ASCII (a character is not a byte: indentation and widths count characters)
+            if nd["k"] == "elem" and rnd.random() < 0.08:
+                nd["ln"] = rnd.choice(["\u00e9", "caf\u00e9", "\u65e5\u672c", "a\u00e9\u00e9\u00e9"])
+            if nd["k"] == "comm" and rnd.random() < 0.25:
+                nd["t"] = gen.cps(rnd.choice(["\u20ac\u20ac", "\u00e9", "x\U0001F600y"]))
+            if nd["k"] == "pi" and nd["d"] and rnd.random() < 0.25:
+                nd["t"] = gen.cps(rnd.choice(["\u212a \u20ac", "\u00e9\u00e9"]))
         root = roots[0]
         isdoc = f.n[root - 1]["k"] == "doc"
         wf = isdoc and len([c for c in f.n[root - 1]["c"] if f.n[c - 1]["k"] == "elem"]) == 1 and not any(f.n[c - 1]["k"] == "text" for c in f.n[root - 1]["c"])
@@ -1259,6 +1266,23 @@ def html_check(prop, tier, seed):
                 other_ns = "http://www.w3.org/1999/xhtml" if nd["ns"] == "" else ""
                 cdsel = [rnd.choice([[nd["ns"], nd["ln"].swapcase()], [other_ns, nd["ln"]], [nd["ns"], nd["ln"].upper() if nd["ln"] != nd["ln"].upper() else nd["ln"].lower()]])]
         jobs.append({"st": f.state(), "root": roots[0], "indent": k % 2 == 0, "suppress": rnd.choice(sup_opts), "cdata": cdsel})
+        counts["random"] += 1
+    # fragments: a top-level script / style / CDATA-section element and, behind it at the top level, character data with
+    # markup characters (how a text node is escaped depends on ITS parent, not on the element written last)
+    for k in range(60 if quick else 1500):
+        ff = gen.Forest(True)
+        top = ff.add(gen.node("doc"))
+        if rnd.random() < 0.3:
+            ff.add(gen.node("text", t=gen.cps("x&y")), top)
+        first = rnd.choice(["script", "style", "STYLE", "pre", "p"])
+        e = ff.add(gen.node("elem", ns=rnd.choice(["", "http://www.w3.org/1999/xhtml"]) if first in ("script", "style", "STYLE") else "", ln=first), top)
+        ff.add(gen.node("text", t=gen.cps(rnd.choice(["a b", "x", "if (a && b) {}"])) if first in ("script", "style", "STYLE") else gen.cps("q<r")), e)
+        if rnd.random() < 0.3:
+            ff.add(gen.node("comm", t=gen.cps("c")), top)
+        ff.add(gen.node("text", t=gen.cps(rnd.choice(["a < b & c", "<", "&amp;", "1 & 2", "x]]>y<"]))), top)
+        if rnd.random() < 0.5:
+            ff.add(gen.node("elem", ln="em"), top)
+        jobs.append({"st": ff.state(), "root": 1, "indent": k % 3 == 0, "suppress": [], "cdata": [["", first]] if first in ("pre", "p") and k % 2 == 0 else []})
         counts["random"] += 1
     # an outer default namespace, a prefixed SVG / MathML / XHTML element with a declaration of its own (the serialiser writes
     # it unprefixed under a generated default declaration) and, inside it, elements of the OUTER default namespace again:
